@@ -12,7 +12,7 @@ from . import core, locate
 H = [0.25, 0.5, 0.125]
 
 C02_QUICK = ["q_rad_free", "q_cyl_free", "q_cylp_free"]
-C02_THOROUGH = C02_QUICK + ["t_rad_free", "t_cyl_free", "t_cylp_free", "t_cyl_free2", "t_cylp_free2", "t_cylp_free3"]
+C02_THOROUGH = C02_QUICK + ["t_rad_free", "t_cyl_free", "t_cylp_free", "t_cyl_free2", "t_cylp_free2", "t_cylp_free3", "t_cylp_free4"]
 C01_QUICK = ["q_rad_ren", "q_cyl_ren", "q_cylp_ren", "q_cylp_ren9"]
 C01_THOROUGH = C01_QUICK + ["t_cyl_ren", "t_cylp_ren"]
 
@@ -178,4 +178,9 @@ def run_c01(out):
 
 
 def run_c02(out):
+    # the central filter with a closed interval (implementation before the repair of F18) is refuted by TLC
+    r0 = core.tlc("MC_LocateSym", "MC_LocateSym_dev_cylp_closed.cfg", timeout=600)
+    if r0.violated != "PeriodicCorrect":
+        raise core.MachineryError(f"closed central filter should violate PeriodicCorrect, got {r0.violated}")
+    out.parts["closed_central_filter_refuted_by_TLC"] = {"violated": r0.violated, "states": r0.generated}
     _run(out, C02_QUICK if out.tier == "quick" else C02_THOROUGH)
